@@ -402,3 +402,34 @@ func VerbMatrix() *m.Design {
 		Services: []*m.Service{{Name: "verbs", HasHTTP: true, Methods: methods}},
 		Features: []string{"fixed-design:verb-matrix", "all-verbs", "head-route", "two-verbs-one-path"}}
 }
+
+// RawBodyMatrix is a fixed design whose methods stream the HTTP request and /
+// or response body themselves (SkipRequestBodyEncodeDecode,
+// SkipResponseBodyEncodeDecode): the payload travels in path, query and
+// headers, the result in response headers, the bodies are opaque bytes.
+func RawBodyMatrix() *m.Design {
+	obj := func(fs ...*m.Field) *m.Attr { return &m.Attr{Type: &m.Type{Kind: m.Object, Fields: fs}} }
+	fld := func(n string, a *m.Attr, req bool) *m.Field { return &m.Field{Name: n, Attr: a, Required: req} }
+	str, i64 := func() *m.Attr { return m.Prim(m.String) }, func() *m.Attr { return m.Prim(m.Int64) }
+	upload := &m.Method{Name: "upload",
+		Payload: obj(fld("id", str(), true), fld("tag", str(), false), fld("n", i64(), false)),
+		Result:  obj(fld("size", i64(), true), fld("echo", str(), false)),
+		HTTP: &m.HTTPEndpoint{Routes: []m.Route{{Verb: "POST", Path: "/raw/{id}"}}, Path: []m.Mapping{{Attr: "id"}},
+			Headers: []m.Mapping{{Attr: "tag", Wire: "X-Tag"}}, Query: []m.Mapping{{Attr: "n"}}, SkipReqBody: true}}
+	download := &m.Method{Name: "download",
+		Payload: obj(fld("id", str(), true), fld("part", i64(), false)),
+		Result:  obj(fld("length", i64(), true), fld("kind", str(), false)),
+		HTTP: &m.HTTPEndpoint{Routes: []m.Route{{Verb: "GET", Path: "/raw/{id}"}}, Path: []m.Mapping{{Attr: "id"}}, Query: []m.Mapping{{Attr: "part"}}, SkipRespBody: true,
+			Responses: []*m.Response{{Status: 200, Headers: []m.Mapping{{Attr: "length", Wire: "X-Length"}, {Attr: "kind", Wire: "X-Kind"}}}}}}
+	pipe := &m.Method{Name: "pipe",
+		Payload: obj(fld("id", str(), true), fld("mode", str(), false)),
+		Result:  obj(fld("length", i64(), true)),
+		HTTP: &m.HTTPEndpoint{Routes: []m.Route{{Verb: "PUT", Path: "/raw/{id}/pipe"}}, Path: []m.Mapping{{Attr: "id"}}, Headers: []m.Mapping{{Attr: "mode", Wire: "X-Mode"}},
+			SkipReqBody: true, SkipRespBody: true,
+			Responses: []*m.Response{{Status: 200, Headers: []m.Mapping{{Attr: "length", Wire: "X-Length"}}}}}}
+	plain := &m.Method{Name: "plain", Payload: obj(fld("id", str(), true), fld("note", str(), false)), Result: obj(fld("ok", m.Prim(m.Boolean), true)),
+		HTTP: &m.HTTPEndpoint{Routes: []m.Route{{Verb: "POST", Path: "/raw/{id}/plain"}}, Path: []m.Mapping{{Attr: "id"}}}}
+	return &m.Design{API: m.API{Name: "rawbodies", Title: "Raw body matrix"},
+		Services: []*m.Service{{Name: "rawbodies", HasHTTP: true, Methods: []*m.Method{upload, download, pipe, plain}}},
+		Features: []string{"fixed-design:raw-body-matrix", "skip-request-body-encode-decode", "skip-response-body-encode-decode"}}
+}
